@@ -17,6 +17,7 @@ pub mod c15_rates;
 pub mod c16;
 pub mod c18;
 pub mod fmtgrid;
+pub mod history;
 pub mod selftest;
 pub mod c17;
 
@@ -42,5 +43,10 @@ pub fn collect(prop: &str, blocks: &mut Vec<Block>, setup: &mut Report) {
         "selftest" => selftest::collect(blocks, setup),
         "list" => {}
         _ => setup.machinery.push(format!("unknown property {prop}")),
+    }
+    // histories of depth 2 (props/history.rs); C17 adds its own from its collect()
+    const WITH_HISTORY: [&str; 13] = ["C01", "C02", "C03", "C04", "C05", "C07", "C08", "C09", "C10", "C13", "C14", "C15", "C16"];
+    if let Some(p) = WITH_HISTORY.iter().find(|p| **p == prop) {
+        history::collect_for(p, blocks, setup);
     }
 }
